@@ -50,7 +50,7 @@ var pathPool = []string{
 
 var methodPool = []string{"GET", "GET", "GET", "GET", "POST", "PUT", "PATCH", "DELETE", "OPTIONS", "OPTIONS", "HEAD", "CONNECT", "get", "TRACE"}
 
-var upgradePool = []string{"websocket", "WebSocket", "WEBSOCKET", "h2c", "websocket, foo", "foo,websocket", "xwebsocketx", "", "web socket", "Websocket"}
+var upgradePool = []string{"websocket", "WebSocket", "WEBSOCKET", "h2c", "websocket, foo", "foo,websocket", "xwebsocketx", "", "web socket", "Websocket", "h2c, WebSocket", "websocke", "TLS/1.0", "wEbSoCkEt"}
 
 var aclMethodPool = []string{"GET", "POST", "PUT", "DELETE", "OPTIONS", "get", "PATCH"}
 
@@ -311,6 +311,8 @@ var malformed = []string{
 	"req L 6c6f63616c686f73743a32303139:746370:6c6f63616c686f7374:2019:n ~ 0 ~ . . - 6c6f63616c686f73743a32303139 2f636f6e6669672f . -:1:-:- -:1:-:- ~",
 	"req R 3a32303231:746370:-:2021:n ~ 0 0/. . . 474554 78 2f636f6e6669672f . -:1:-:- -:1:-:- 8",
 	"req R 3a32303231:746370:-:2021:n ~ 0 0/. . . 474554 78 2f636f6e6669672f . -:1:-:- -:1:-:- 1;",
+	// non-ASCII Upgrade value (K = U+212A KELVIN SIGN lower-cases to k in Go)
+	"req L 6c6f63616c686f73743a32303139:746370:6c6f63616c686f7374:2019:n ~ 0 ~ . . 474554 6c6f63616c686f73743a32303139 2f636f6e6669672f 776562736f63e284aa6574 -:1:-:- -:1:-:- ~",
 	// id loop: /id/loop -> /id/loop
 	"req L 6c6f63616c686f73743a32303139:746370:6c6f63616c686f7374:2019:n ~ 0 ~ . 6c6f6f70:2f69642f6c6f6f70 474554 6c6f63616c686f73743a32303139 2f69642f6c6f6f70 . -:1:-:- -:1:-:- ~",
 }
